@@ -344,4 +344,225 @@ theorem not_recovers_of_torn_error (c : Cfg) (h : c.r.tornDataIsEOF = false) (hs
       simp [ht]
   rcases this with rfl | rfl <;> simp [Index.replay, Index.apply, Index.put, Index.del] at hrec
 
+/-- **A crash while the file is being created bricks the swamp.**  The header of a new file is
+    not synced; a crash image with a partial header cannot be opened by `openExistingFile`, the
+    file exists, so `ensureWriter` never recreates it: every later `Write` is dropped. -/
+theorem torn_create_bricks (c : Cfg) (ht : c.truncatesTornTail = false) : ¬ Appendable c := by
+  intro ha
+  let acts : List Act := [.w [(Op.put 1 1, 10)]]
+  have hops : (runActs c mk2 0 100 acts).ops = sessionOps 0 [] := by
+    simp [acts, runActs, Run.step, cWrite, ensureW, openWriter, Disk.get, addManyW, addW, createOps, sessionOps, evOps]
+  have h := ha mk2 mk2_ok 0 100 acts 1 1 10 (by
+    rw [hops]; exact ⟨by simp [sessionOps, evOps, createOps], by simp [lastSyncIdx, sessionOps, createOps, evOps, FsOp.isSync], by omega⟩)
+    [(Op.put 3 3, 10)] (by simp)
+  rw [hops] at h
+  have himg : afterLoad c (lossyImageAt {} (sessionOps 0 []) 1 1 10) =
+      { main := some ((fhCells 0).take 10), temp := none } := by
+    simp [afterLoad, loadOps, rmTempOps, lossyImageAt, imageAt, sessionOps, createOps, evOps, Disk.applyAll,
+      Disk.applyTorn, Disk.apply, Disk.set, Disk.get, splice]
+  have hshort : ((fhCells 0).take 10).length < 64 := by simp
+  have hopen : openWriter c { main := some ((fhCells 0).take 10), temp := none } .main 0 100 = none := by
+    simp [openWriter, Disk.get, headerOf_short _ hshort, ht]
+  have hrec : recover c { main := some ((fhCells 0).take 10), temp := none } = [] := by
+    rw [recover_eq_loadEntries c _ _ rfl]
+    cases hs : c.r.shortFileIsEmpty <;> simp [loadEntries, loadFile, headerOf_short _ hshort, hs, Index.replay]
+  simp only [himg, cWrite, ensureW, hopen, cSync] at h
+  have h' : recover c { main := some ((fhCells 0).take 10), temp := none } =
+      Index.replay (recover c { main := some ((fhCells 0).take 10), temp := none }) [Op.put 3 3] := h
+  rw [hrec] at h'
+  simp [Index.replay, Index.apply, Index.put, Index.del] at h'
+
+/-- **Appending behind a torn tail strands the new blocks.**  `openExistingFile` seeks to the
+    end without truncating; after a crash inside a block's payload the new block lands behind
+    the fragment and the reader never reaches it — whatever it does with the short read. -/
+theorem append_after_torn_tail_strands (c : Cfg) (ht : c.truncatesTornTail = false) : ¬ Appendable c := by
+  intro ha
+  let b1 := mk2 [Op.put 1 1]
+  let acts : List Act := [.w [(Op.put 1 1, 200)]]
+  have hops : (runActs c mk2 0 100 acts).ops = sessionOps 0 [.blk b1] := by
+    simp [acts, runActs, Run.step, cWrite, ensureW, openWriter, Disk.get, addManyW, addW, flushW, createOps,
+      sessionOps, evOps, mk2, b1]
+  have h := ha mk2 mk2_ok 0 100 acts 3 3 1 (by
+    rw [hops]; exact ⟨by simp [sessionOps, evOps, createOps], by simp [lastSyncIdx, sessionOps, createOps, evOps, FsOp.isSync], by omega⟩)
+    [(Op.put 3 3, 200)] (by simp)
+  rw [hops] at h
+  -- the image: header, then the block cut one byte into its payload
+  let g := fileCells 0 [] ++ (blockCells b1).take 17
+  have himg : afterLoad c (lossyImageAt {} (sessionOps 0 [.blk b1]) 3 3 1) = { main := some g, temp := none } := by
+    have hexp : sessionOps 0 [.blk b1] = sessionOps 0 [] ++
+        [.write .main 64 (hdrCells b1), .write .main 80 (payCells b1), .write .main 0 (fhCells 0)] := by
+      simp [sessionOps, evOps, createOps]
+    have hlen2 : (sessionOps 0 []).length = 2 := by simp [sessionOps, evOps, createOps]
+    have htake : (sessionOps 0 [.blk b1]).take 3 = sessionOps 0 [] ++ [.write .main 64 (hdrCells b1)] := by
+      rw [hexp, List.take_append, hlen2]; simp [List.take_of_length_le, hlen2]
+    have hget : (sessionOps 0 [.blk b1])[3]? = some (.write .main 80 (payCells b1)) := by
+      rw [hexp, List.getElem?_append_right (by omega), hlen2]; rfl
+    have hfl : (fileCells 0 []).length = 64 := by simp [fileCells, render, nmCells]
+    have d2 : ({} : Disk).applyAll (sessionOps 0 []) = { main := some (fileCells 0 []), temp := none } := by
+      rw [applyAll_sessionOps]; simp [evBlocks]
+    have d3 : ({ main := some (fileCells 0 []), temp := none } : Disk).apply (.write .main 64 (hdrCells b1)) =
+        { main := some (fileCells 0 [] ++ hdrCells b1), temp := none } := by
+      rw [apply_write_main _ (fileCells 0 []) rfl, ← hfl, splice_end]
+    have d4 : ({ main := some (fileCells 0 [] ++ hdrCells b1), temp := none } : Disk).apply
+          (.write .main 80 ((payCells b1).take 1)) =
+        { main := some (fileCells 0 [] ++ hdrCells b1 ++ (payCells b1).take 1), temp := none } := by
+      have h80 : 80 = (fileCells 0 [] ++ hdrCells b1).length := by simp [hfl]
+      rw [apply_write_main _ (fileCells 0 [] ++ hdrCells b1) rfl, h80, splice_end]
+    have h17 : (blockCells b1).take 17 = hdrCells b1 ++ (payCells b1).take 1 := by
+      rw [take_blockCells_ge _ 17 (by omega)]
+    have himg0 : lossyImageAt {} (sessionOps 0 [.blk b1]) 3 3 1 = { main := some g, temp := none } := by
+      simp only [lossyImageAt, Nat.le_refl, if_true, imageAt, hget, htake, Disk.applyAll_append, d2,
+        Disk.applyAll_cons, Disk.applyAll_nil, Disk.applyTorn, d3, d4, g, h17, List.append_assoc]
+    rw [himg0, afterLoad_of_no_temp c _ rfl]
+  -- the non-truncating open puts the writer at the end of the image
+  have hhdr : HdrOk g 0 := by
+    show HdrOk (fileCells 0 [] ++ (blockCells b1).take 17) 0
+    exact (fileCells_hdr 0 []).append _
+  have hopen : openWriter c { main := some g, temp := none } .main 0 100 =
+      some ({ path := .main, pos := g.length, nl := 0, buf := [], bufSize := 0, bs := 100 }, []) := by
+    simp [openWriter, Disk.get, hhdr.headerOf, ht]
+  have hwinv : WInv { main := some g, temp := none }
+      { path := .main, pos := g.length, nl := 0, buf := [], bufSize := 0, bs := 100 } g := ⟨rfl, rfl, hhdr⟩
+  obtain ⟨a, hae, pa⟩ := addManyW_spec mk2 mk2_ok [(Op.put 3 3, 200)] _ _ _ hwinv
+  obtain ⟨nbs, hn, hnwf, hget⟩ := syncW_spec c mk2 mk2_ok _ _ _ pa.inv
+  rw [pa.path] at hget
+  simp only [himg, cWrite, List.isEmpty_cons, Bool.false_eq_true, if_false, ensureW, hopen, cSync, List.nil_append,
+    Disk.applyAll_nil] at h
+  -- the file after the append: image ++ whole new blocks, which hold the new entry
+  have hfin : ((({ main := some g, temp := none } : Disk).applyAll
+      (addManyW mk2 { path := .main, pos := g.length, nl := 0, buf := [], bufSize := 0, bs := 100 } [(Op.put 3 3, 200)]).2).applyAll
+      (syncW c mk2 (addManyW mk2 { path := .main, pos := g.length, nl := 0, buf := [], bufSize := 0, bs := 100 } [(Op.put 3 3, 200)]).1).2).main =
+      some (g ++ render (a ++ nbs)) := by
+    simp only [Disk.get] at hget
+    rw [hget, render_append, List.append_assoc]
+  have hents : entsOf (a ++ nbs) = [Op.put 3 3] := by
+    rw [entsOf_append, hn]; simpa using hae
+  have hne : a ++ nbs ≠ [] := by intro e; rw [e] at hents; simp [entsOf] at hents
+  have hrest : (render (a ++ nbs)).head? ≠ some (Cell.bp b1 (17 - 16)) := by
+    cases hab : a ++ nbs with
+    | nil => exact absurd hab hne
+    | cons b' t => simp [render, blockCells, hdrCells_eq]
+  have hstr := loadEntries_strands c.r 0 [] (by simp) b1 (mk2_wf _) 17 (by omega) (by show 17 < 16 + 2; omega)
+    (render (a ++ nbs)) hrest
+  have hg : g ++ render (a ++ nbs) = fileCells 0 [] ++ ((blockCells b1).take 17 ++ render (a ++ nbs)) := by
+    simp [g, List.append_assoc]
+  have hl0 : loadEntries c.r (g ++ render (a ++ nbs)) = [] := by
+    rw [hg]; rcases hstr with h' | h' <;> simpa [entsOf] using h'
+  have hr1 := recover_eq_loadEntries c _ _ hfin
+  have hr0 : recover c { main := some g, temp := none } = [] := by
+    rw [recover_eq_loadEntries c _ g rfl]
+    have := loadFile_base_tail c.r 0 [] (by simp) b1 (mk2_wf _) 17 (by show 17 < 16 + 2; omega)
+    simp only [loadEntries, g, this]
+    cases stopOk c.r (tailStop 17) <;> simp [entsOf, Index.replay]
+  rw [hr1, hl0, hr0] at h
+  simp [Index.replay, Index.apply, Index.put, Index.del] at h
+
+/-! ### What holds for the current reader: crash points that leave at most a block header behind -/
+
+/-- **Partial result for the current reader** (torn payloads excluded): a main file consisting of
+    whole blocks followed by at most 16 bytes of the next block header loads to exactly the whole
+    blocks, provided a short header read is treated as EOF.  This covers every crash point at an
+    operation boundary of a session after the file header was written, and torn block-header and
+    file-header writes.  Missing for the full statement: torn payload writes (the reader must map
+    the short read to EOF) and crashes while the file header itself is being created. -/
+theorem C02_partial (c : RCfg) (h : c.shortHeaderIsEOF = true) (nl : Nat) (bs : List Block) (hwf : ∀ b ∈ bs, b.WF)
+    (b : Block) (hb : b.WF) (r : Nat) (hr : r ≤ 16) :
+    loadFile c (fileCells nl bs ++ (blockCells b).take r) = .ok (entsOf bs) := by
+  have hr' : r < 16 + b.plen := by have := hb.2.2; omega
+  rw [loadFile_base_tail c nl bs hwf b hb r hr']
+  have : stopOk c (tailStop r) = true := by
+    unfold tailStop
+    split
+    · rfl
+    · split
+      · exact h
+      · have : r = 16 := by omega
+        simp [this, stopOk]
+  simp [this]
+
+/-- Non-vacuity: the hypotheses of the theorems are met by a real session. -/
+example : MkOk mk2 ∧ (runActs ⟨⟨true, true, false⟩, true, true, true, true, true, true, true⟩ mk2 0 100
+    [.w [(Op.put 1 1, 200)], .sync]).ops.length = 7 := by
+  refine ⟨mk2_ok, ?_⟩
+  simp [runActs, Run.step, cWrite, cSync, ensureW, openWriter, Disk.get, addManyW, addW, flushW, syncW, createOps, mk2]
+
+/-! ### Decision over the extracted facts -/
+
+structure Facts where
+  /-- `n < BlockHeaderSize` after the header read returns io.EOF -/
+  shortHeaderIsEOF : Tri
+  /-- io.ErrUnexpectedEOF from the payload ReadFull is mapped to io.EOF -/
+  tornDataIsEOF : Tri
+  /-- flushLocked writes block header, payload, file header, in this order -/
+  flushOrderCanonical : Tri
+  /-- FileWriter.Sync / Close end with file.Sync() -/
+  syncFsyncs : Tri
+  closeFsyncs : Tri
+  /-- openExistingFile opens without O_TRUNC and seeks to the end -/
+  opensExistingForAppend : Tri
+  /-- openExistingFile truncates a torn tail (repair; not in the tree) -/
+  truncatesTornTail : Tri
+  /-- Load returns (empty swamp) on any reader error -/
+  loadAbortsOnError : Tri
+  /-- fileWriterHandler calls chronicler.Sync() after every Write -/
+  handlerSyncsAfterWrite : Tri
+  /-- chroniclerV2.Sync forwards to FileWriter.Sync -/
+  chronSyncForwards : Tri
+  deriving Repr
+
+def cfgOf (f : Facts) : Cfg :=
+  { r := ⟨f.shortHeaderIsEOF.isYes, f.tornDataIsEOF.isYes, false⟩,
+    syncFsyncs := f.syncFsyncs.isYes, closeFsyncs := f.closeFsyncs.isYes,
+    truncatesTornTail := f.truncatesTornTail.isYes,
+    loadCleansTemp := true, rmTempLocked := true, rmTempFromIndex := true, rmTempCompactor := true }
+
+/-- the model describes this code: canonical flush order, append-mode open, Load aborts on error,
+    the periodic tick really fsyncs (otherwise nothing is ever durable and the statement is void) -/
+def modelApplies (f : Facts) : Bool :=
+  f.flushOrderCanonical.isYes && f.opensExistingForAppend.isYes && f.loadAbortsOnError.isYes &&
+  f.syncFsyncs.isYes && f.closeFsyncs.isYes && f.handlerSyncsAfterWrite.isYes && f.chronSyncForwards.isYes &&
+  f.shortHeaderIsEOF.isYes && f.tornDataIsEOF != .unknown && f.truncatesTornTail != .unknown
+
+def findings (f : Facts) : List String :=
+  (if f.tornDataIsEOF.isYes then [] else ["C02-torn-payload-load-error"]) ++
+  (if f.truncatesTornTail.isYes then [] else ["C02-append-after-torn-tail-strands", "C02-torn-create-bricks-swamp"])
+
+def classify (f : Facts) : Verdict :=
+  if !modelApplies f then .undetermined "a storage fact was not recognised or the durability barrier is missing (the model does not describe this code)"
+  else if findings f = [] then .holds
+  else .violated (findings f)
+
+/-- the fragment proved for every reader that treats a short header as EOF -/
+def Partial (c : Cfg) : Prop :=
+  c.r.shortHeaderIsEOF = true → ∀ (nl : Nat) (bs : List Block), (∀ b ∈ bs, b.WF) → ∀ (b : Block), b.WF → ∀ r, r ≤ 16 →
+    loadFile c.r (fileCells nl bs ++ (blockCells b).take r) = .ok (entsOf bs)
+
+theorem classify_sound (f : Facts) : (classify f).Sound (Holds (cfgOf f)) (Partial (cfgOf f)) := by
+  unfold classify
+  split
+  · trivial
+  · rename_i hm
+    simp only [Bool.not_eq_true', Bool.not_eq_false] at hm
+    simp only [modelApplies, Bool.and_eq_true] at hm
+    obtain ⟨⟨⟨⟨⟨⟨⟨⟨⟨_, _⟩, _⟩, hsf⟩, _⟩, _⟩, _⟩, hsh⟩, _⟩, _⟩ := hm
+    split
+    · rename_i hfnd
+      simp only [findings, List.append_eq_nil_iff] at hfnd
+      obtain ⟨h1, h2⟩ := hfnd
+      have ht : f.tornDataIsEOF.isYes = true := by revert h1; cases f.tornDataIsEOF.isYes <;> simp
+      have htr : f.truncatesTornTail.isYes = true := by revert h2; cases f.truncatesTornTail.isYes <;> simp
+      exact holds_of_repaired (cfgOf f) ⟨hsh, ht⟩ htr
+    · rename_i hfnd
+      refine ⟨?_, fun h nl bs hwf b hb r hr => C02_partial (cfgOf f).r h nl bs hwf b hb r hr⟩
+      intro hh
+      apply hfnd
+      simp only [findings, List.append_eq_nil_iff]
+      constructor
+      · cases ht : f.tornDataIsEOF.isYes
+        · exact absurd hh.recovers (not_recovers_of_torn_error (cfgOf f) ht hsf)
+        · simp
+      · cases htr : f.truncatesTornTail.isYes
+        · exact absurd hh.appendable (append_after_torn_tail_strands (cfgOf f) htr)
+        · simp
+
 end Hv.C02
